@@ -602,7 +602,14 @@ def smoke_case(h, prog, rng, valgrind=False):
     if prog == "qmail-local":
         ext = rng.choice(["", "ext", "a-b-c", "x.y", "UPPER", "default", "e" * 200])
         for f in os.listdir(h.uhome):
-            os.unlink(os.path.join(h.uhome, f))
+            fp = os.path.join(h.uhome, f)
+            if os.path.isdir(fp) and not os.path.islink(fp):
+                shutil.rmtree(fp, ignore_errors=True)
+            else:
+                os.unlink(fp)
+        if rng.random() < 0.7:
+            for d in ("Maildir", "Maildir/tmp", "Maildir/new", "Maildir/cur"):
+                os.mkdir(os.path.join(h.uhome, d))
         names = [".qmail" + ("-" + ext if ext else "")]
         if rng.random() < 0.3:
             names.append(".qmail-default")
@@ -614,8 +621,11 @@ def smoke_case(h, prog, rng, valgrind=False):
         local = "joe" + ("-" + ext if ext else "")
         sender = rng.choice(["s@x.test", "", "#@[]", "a b@c", "s" * 500 + "@h", "weird\nsender@x"])
         extra["cwd"] = h.uhome
-        return [bp, "-n", "joe", h.uhome, local, "-" if ext else "", ext, rng.choice(["local.test", "a.b.c.d.e", ""]), sender,
-                rng.choice(["./Mailbox", "./Maildir/", "|true", "&x@y"])], env, b"Subject: s\n\nbody\n", extra
+        # half of the runs are real deliveries (the executing pass stores what -n only prints); forwards go to qq-rec
+        dry = ["-n"] if rng.random() < 0.5 else []
+        return [bp] + dry + ["joe", h.uhome, local, "-" if ext else "", ext, rng.choice(["local.test", "a.b.c.d.e", ""]), sender,
+                             rng.choice(["./Mailbox", "./Maildir/", "|true", "&x@y"])], env, \
+            rng.choice([b"Subject: s\n\nbody\n", b"Subject: s\n\nbody\n", b"", b"From x\n>From y\nno newline", b"H: " + b"h" * 3000 + b"\n\nb\n"]), extra
     if prog == "qmail-lspawn":
         db = h.cdb_good
         if rng.random() < 0.85:
